@@ -74,13 +74,13 @@ def run(tool, tier, seed):
         metas = []
         for dom in tool['domains']:
             try:
-                r = witness.run_search(dom, seed or 1)
+                r = witness.run_search(dom, seed or 1, scale=(10 if tier == 'thorough' else 1))
             except Exception as e:
                 raise engine.Undecided('native differential run unavailable: %s' % str(e)[:400])
             o = {'name': 'native-differential:%s' % dom, 'engine': 'native/differential', 'ok': not r['found'], 'time_ms': int(r['wall_s'] * 1000),
                  'detail': ['no disagreement between the real code and the executable spec on the enumerated/sampled inputs'] if not r['found']
                  else ['real code disagrees with the spec on input %s: expected %s, got %s' % (r['input'], r['expected'], r['actual'])],
-                 'bounded': True, 'bound': tool.get('bound', 'enumerated + sampled inputs, see witness/src/main.rs')}
+                 'bounded': True, 'bound': tool.get('bound', 'enumerated + sampled inputs, see witness/src/main.rs') + (' (random budgets x10 in the thorough tier)' if tier == 'thorough' else '')}
             if r['found']:
                 o['witness'] = {'domain': dom, 'input': r['input'], 'expected': r['expected'], 'actual': r['actual']}
             obls.append(o)
